@@ -132,6 +132,30 @@ func runC01(prop string, res *Result, pool *DrvPool, r *Rng) {
 	for i := 0; i < n; i++ {
 		check("generated", GenDump(r, 6, 5), GenCfg(r))
 	}
+	// a dump of many thousand goroutines (a server with a goroutine per connection)
+	{
+		var big []GSpec
+		for g := 0; g < 12000; g++ {
+			big = append(big, GSpec{ID: g + 1, State: "IO wait", Elided: -1, Frames: []FrameSpec{{Pkg: "main", Name: "serve", Args: []ArgSpec{{V: uint64(0xc000000000 + g*64)}}, File: "/srv/app/conn.go", Line: 40 + g%7, Off: " +0x2b"}}})
+		}
+		// (implementation against the description only: the list-based model is not run on 600 KB)
+		txt := PrintCfg{FileIndent: "\t"}.Dump(big)
+		op := &ScanOp{Op: "scan", Data: hb(txt), Sched: genSched(r, len(txt)), Final: "eof", WithData: r.Bool()}
+		got := implScan(op)
+		small := &ScanOp{Op: "scan", Data: hb(clip(txt)), Sched: []int{}, Final: "eof"}
+		if got.Panic || got.Err != "eof" || len(got.Snap) != len(big) || got.Fwd.String() != "" || got.Rest.String() != "" {
+			res.Violation(Finding{Stream: "scan", What: fmt.Sprintf("a dump of %d goroutines (3 lines each): %d goroutines parsed, error %q, %d bytes forwarded, %d bytes left over", len(big), len(got.Snap), got.Err, len(got.Fwd.String()), len(got.Rest.String())), Op: small})
+		} else {
+			want := ExpectedGoroutines(big)
+			for i := range want {
+				if jsonStr(got.Snap[i]) != jsonStr(want[i]) {
+					res.Violation(Finding{Stream: "scan", What: fmt.Sprintf("a dump of %d goroutines: goroutine %d differs from its description: %s", len(big), i, firstDiff(got.Snap[i:i+1], want[i:i+1])), Op: small})
+					break
+				}
+			}
+		}
+		res.Count("many-goroutines")
+	}
 	runLiveC01(res)
 	// many goroutines / deep stacks / long lines
 	for i := 0; i < countN(res.Tier, 6, 200); i++ {
